@@ -25,6 +25,10 @@ type history struct {
 	Ending  string       `json:"ending"` // stop | stop-nosnap(kill after quiesce) | kill
 	Peers   []peer       `json:"peers"`
 	NewAddr bool         `json:"new_addr"` // recover under a new raft address
+	// Again: ops run after the first recovery, followed by a second recovery of
+	// the same data directory (empty = no second recovery)
+	Again       []nscript.Op `json:"again,omitempty"`
+	AgainEnding string       `json:"again_ending,omitempty"`
 }
 
 type peer struct {
@@ -46,6 +50,7 @@ type result struct {
 	SinceSnap        int           `json:"writes_since_last_snapshot"`
 	FirstStartFailed string        `json:"first_start_failed,omitempty"`
 	TrailingConfig   bool          `json:"log_ends_with_membership_change"`
+	SecondRecovery   bool          `json:"second_recovery_judged"`
 }
 
 func gen(c *vf.Ctx, i int) history {
@@ -79,6 +84,24 @@ func gen(c *vf.Ctx, i int) history {
 		h.Peers = append(h.Peers, peer{ID: "ghost-nv", Address: "127.0.0.1:1", NonVoter: true})
 	case 2:
 		h.Peers = append(h.Peers, peer{ID: "ghost-nv1", Address: "127.0.0.1:1", NonVoter: true}, peer{ID: "ghost-nv2", Address: "127.0.0.1:2", NonVoter: true})
+	}
+	if r.IntN(2) == 0 {
+		kinds2 := []string{"write", "write", "snapshot", "snapshot", "restart-nosnap", "load"}
+		m := 2 + r.IntN(5)
+		for j := 0; j < m; j++ {
+			k := kinds2[r.IntN(len(kinds2))]
+			switch k {
+			case "write":
+				h.Again = append(h.Again, nscript.Op{Kind: k, Arg: 900000 + w})
+				w++
+			case "load":
+				h.Again = append(h.Again, nscript.Op{Kind: k, Arg: l})
+				l++
+			default:
+				h.Again = append(h.Again, nscript.Op{Kind: k})
+			}
+		}
+		h.AgainEnding = []string{"stop", "kill"}[r.IntN(2)]
 	}
 	return h
 }
@@ -183,95 +206,105 @@ func runHistory(dir string, h history) (res result) {
 	case "kill":
 		n.Kill()
 	}
-	// Recovery: peers file with this node (possibly at a new address) plus ghosts.
-	if h.NewAddr {
-		n.RaftAddr = procnode.FreeAddr()
-	}
-	peers := append([]peer{{ID: "n1", Address: n.RaftAddr}}, h.Peers...)
-	res.H.Peers = peers
-	os.MkdirAll(filepath.Join(data, "raft"), 0755)
-	pb, _ := json.Marshal(peers)
-	if err := os.WriteFile(filepath.Join(data, "raft", "peers.json"), pb, 0644); err != nil {
-		res.Inconcl = err.Error()
-		return
-	}
-	if err := n.Start(); err != nil {
-		res.Inconcl = "recovery start: " + err.Error()
-		return
-	}
-	if err := n.WaitReady(60 * time.Second); err != nil {
-		tail := tailFile(n.LogPath, 3000)
-		if !n.Running() && strings.Contains(tail, "node recovered successfully") && strings.Contains(tail, "MSRW conflict owner: reap") {
-			// The recovery itself completed (snapshot written, peers.json renamed) but
-			// the process then exited because the auto-reaper, woken by the recovery
-			// snapshot, held the snapshot-store lock when Raft listed the snapshots.
-			// Reported under its own key; the case continues with a plain restart so
-			// that the data and configuration are still judged.
-			res.FirstStartFailed = "creating the raft system failed: MSRW conflict owner: reap"
-			if err := n.Start(); err != nil {
-				res.Inconcl = "restart after failed first start: " + err.Error()
-				return
+	var peers []peer
+	// doRecovery writes a peers file, restarts the node and judges data and
+	// configuration against the model. It returns false when the case is decided
+	// (problem or inconclusive).
+	doRecovery := func(pfx string, newAddr bool) bool {
+		// Recovery: peers file with this node (possibly at a new address) plus ghosts.
+		if newAddr {
+			n.RaftAddr = procnode.FreeAddr()
+		}
+		peers = append([]peer{{ID: "n1", Address: n.RaftAddr}}, h.Peers...)
+		res.H.Peers = peers
+		os.MkdirAll(filepath.Join(data, "raft"), 0755)
+		pb, _ := json.Marshal(peers)
+		if err := os.WriteFile(filepath.Join(data, "raft", "peers.json"), pb, 0644); err != nil {
+			res.Inconcl = err.Error()
+			return false
+		}
+		if err := n.Start(); err != nil {
+			res.Inconcl = "recovery start: " + err.Error()
+			return false
+		}
+		if err := n.WaitReady(60 * time.Second); err != nil {
+			tail := tailFile(n.LogPath, 3000)
+			if !n.Running() && strings.Contains(tail, "node recovered successfully") && strings.Contains(tail, "MSRW conflict owner: reap") {
+				// The recovery itself completed (snapshot written, peers.json renamed) but
+				// the process then exited because the auto-reaper, woken by the recovery
+				// snapshot, held the snapshot-store lock when Raft listed the snapshots.
+				// Reported under its own key; the case continues with a plain restart so
+				// that the data and configuration are still judged.
+				res.FirstStartFailed = "creating the raft system failed: MSRW conflict owner: reap"
+				if err := n.Start(); err != nil {
+					res.Inconcl = "restart after failed first start: " + err.Error()
+					return false
+				}
+				err = n.WaitReady(60 * time.Second)
 			}
-			err = n.WaitReady(60 * time.Second)
+			if err == procnode.ErrPortInUse {
+				res.Inconcl = "port in use"
+				return false
+			}
+			if err != nil {
+				res.Problem = "node does not become ready after recovery: " + err.Error()
+				res.Key = pfx + "recover:not-ready"
+				res.LogTail = tailFile(n.LogPath, 3000)
+				return false
+			}
 		}
-		if err == procnode.ErrPortInUse {
-			res.Inconcl = "port in use"
-			return
-		}
+		got, err := nscript.ReadState(n)
 		if err != nil {
-			res.Problem = "node does not become ready after recovery: " + err.Error()
-			res.Key = "recover:not-ready"
-			res.LogTail = tailFile(n.LogPath, 3000)
-			return
+			res.Problem = "cannot read state after recovery: " + err.Error()
+			res.Key = pfx + "recover:read-failed"
+			return false
 		}
-	}
-	got, err := nscript.ReadState(n)
-	if err != nil {
-		res.Problem = "cannot read state after recovery: " + err.Error()
-		res.Key = "recover:read-failed"
-		return
-	}
-	res.Got = got.String()
-	// configuration
-	nr := n.Do("GET", "/nodes?nonvoters&ver=2", nil, "")
-	res.Nodes = string(nr.Body)
-	var nodes struct {
-		Nodes []struct {
-			ID    string `json:"id"`
-			Addr  string `json:"addr"`
-			Voter bool   `json:"voter"`
-		} `json:"nodes"`
-	}
-	cfgProblem := ""
-	if err := json.Unmarshal(nr.Body, &nodes); err != nil {
-		cfgProblem = "cannot parse /nodes: " + err.Error()
-	} else {
-		var a, b []string
-		for _, x := range nodes.Nodes {
-			a = append(a, fmt.Sprintf("%s@%s voter=%v", x.ID, x.Addr, x.Voter))
+		res.Got = got.String()
+		// configuration
+		nr := n.Do("GET", "/nodes?nonvoters&ver=2", nil, "")
+		res.Nodes = string(nr.Body)
+		var nodes struct {
+			Nodes []struct {
+				ID    string `json:"id"`
+				Addr  string `json:"addr"`
+				Voter bool   `json:"voter"`
+			} `json:"nodes"`
 		}
-		for _, p := range peers {
-			b = append(b, fmt.Sprintf("%s@%s voter=%v", p.ID, p.Address, !p.NonVoter))
+		cfgProblem := ""
+		if err := json.Unmarshal(nr.Body, &nodes); err != nil {
+			cfgProblem = "cannot parse /nodes: " + err.Error()
+		} else {
+			var a, b []string
+			for _, x := range nodes.Nodes {
+				a = append(a, fmt.Sprintf("%s@%s voter=%v", x.ID, x.Addr, x.Voter))
+			}
+			for _, p := range peers {
+				b = append(b, fmt.Sprintf("%s@%s voter=%v", p.ID, p.Address, !p.NonVoter))
+			}
+			sort.Strings(a)
+			sort.Strings(b)
+			if strings.Join(a, ";") != strings.Join(b, ";") {
+				cfgProblem = fmt.Sprintf("configuration after recovery %v != peers file %v", a, b)
+			}
 		}
-		sort.Strings(a)
-		sort.Strings(b)
-		if strings.Join(a, ";") != strings.Join(b, ";") {
-			cfgProblem = fmt.Sprintf("configuration after recovery %v != peers file %v", a, b)
+		if !got.Equal(model) {
+			res.Problem = fmt.Sprintf("state after recovery {%s} != applied state before shutdown {%s}", got, model)
+			res.Key = pfx + "recover:data-mismatch"
+			return false
 		}
+		if cfgProblem != "" {
+			res.Problem = cfgProblem
+			res.Key = pfx + "recover:config-mismatch"
+			return false
+		}
+		if _, err := os.Stat(filepath.Join(data, "raft", "peers.json")); err == nil {
+			res.Problem = "peers.json still present after recovery"
+			res.Key = pfx + "recover:peers-file-not-renamed"
+			return false
+		}
+		return true
 	}
-	if !got.Equal(model) {
-		res.Problem = fmt.Sprintf("state after recovery {%s} != applied state before shutdown {%s}", got, model)
-		res.Key = "recover:data-mismatch"
-		return
-	}
-	if cfgProblem != "" {
-		res.Problem = cfgProblem
-		res.Key = "recover:config-mismatch"
-		return
-	}
-	if _, err := os.Stat(filepath.Join(data, "raft", "peers.json")); err == nil {
-		res.Problem = "peers.json still present after recovery"
-		res.Key = "recover:peers-file-not-renamed"
+	if !doRecovery("", h.NewAddr) {
 		return
 	}
 	// usable, and stable across a plain restart
@@ -306,12 +339,53 @@ func runHistory(dir string, h history) (res result) {
 	if !got2.Equal(model) {
 		res.Problem = fmt.Sprintf("state after the restart following recovery {%s} != {%s}", got2, model)
 		res.Key = "recover:second-restart-mismatch"
+		return
 	}
+	// Second recovery of the same data directory: the node keeps running after
+	// the first one (writes, snapshots on top of the recovery snapshot, restarts)
+	// and is then recovered again.
+	if len(h.Again) == 0 {
+		return
+	}
+	for i, op := range h.Again {
+		if op.Kind == "restart-nosnap" {
+			n.Kill()
+			if err := n.Start(); err != nil {
+				res.Inconcl = "again restart: " + err.Error()
+				return
+			}
+			if err := n.WaitReady(60 * time.Second); err != nil {
+				res.Inconcl = fmt.Sprintf("again op %d restart not ready: %v", i, err)
+				return
+			}
+			continue
+		}
+		out, msg := nscript.Exec(n, op, scratch)
+		if out == nscript.Acked {
+			model = model.Apply(op)
+		} else if out == nscript.Unknown {
+			res.Inconcl = fmt.Sprintf("again op %d %s unknown outcome: %s", i, op, msg)
+			return
+		}
+	}
+	res.Want = model
+	if h.AgainEnding == "stop" {
+		if _, ok := n.Stop(40 * time.Second); !ok {
+			res.Inconcl = "graceful stop before second recovery timed out"
+			return
+		}
+	} else {
+		n.Kill()
+	}
+	if !doRecovery("again:", false) {
+		return
+	}
+	res.SecondRecovery = true
 	return
 }
 
 func run(c *vf.Ctx) {
-	c.Rule("history = seeded sequence of 4-11 ops from {uniquely tagged non-idempotent write, user snapshot, load of a generated database, graceful restart, killed restart, join of a second real process as non-voter that is killed again (membership change at the log tail)} on a single real rqlited process, ended by graceful stop (snapshot-on-close) or SIGKILL; then a generated peers.json (this node, at the old or a new raft address, plus 0-2 unreachable non-voters) is written and the node restarted. Oracle: state read back by a strong read equals the model of acknowledged ops, /nodes equals the peers file, peers.json is renamed, a further write works, and a plain restart gives the same state. non-trivial = at least one acknowledged write/load since the last snapshot before shutdown, or a new address, or extra peers; distinct by history")
+	c.Rule("history = seeded sequence of 4-11 ops from {uniquely tagged non-idempotent write, user snapshot, load of a generated database, graceful restart, killed restart, join of a second real process as non-voter that is killed again (membership change at the log tail)} on a single real rqlited process, ended by graceful stop (snapshot-on-close) or SIGKILL; then a generated peers.json (this node, at the old or a new raft address, plus 0-2 unreachable non-voters) is written and the node restarted; in half of the histories the recovered node then runs 2-6 further ops (writes, snapshots on top of the recovery snapshot, killed restarts, loads), is stopped or killed and recovered a second time with the same peers file. Oracle: state read back by a strong read equals the model of acknowledged ops, /nodes equals the peers file, peers.json is renamed, a further write works, and a plain restart gives the same state. non-trivial = at least one acknowledged write/load since the last snapshot before shutdown, or a new address, or extra peers; distinct by history")
 	c.Assume("single surviving node; extra peers are unreachable non-voters so the node can still elect itself")
 	nH := c.N(12, 200)
 	tmp := vf.TempDir("c33")
@@ -369,6 +443,9 @@ func run(c *vf.Ctx) {
 		if res.TrailingConfig {
 			c.Count("histories_ending_with_membership_change", 1)
 		}
+		if res.SecondRecovery {
+			c.Count("second_recoveries_judged", 1)
+		}
 		if res.SinceSnap > 0 || res.H.NewAddr || len(res.H.Peers) > 1 {
 			b, _ := json.Marshal(res.H)
 			c.Nontrivial(string(b))
@@ -383,7 +460,7 @@ func run(c *vf.Ctx) {
 				// classify: which ending / whether a fingerprint was valid
 				key += ":after-" + res.H.Ending
 			}
-			c.Violation(key, fmt.Sprintf("ops %v ending %s: %s", res.H.Ops, res.H.Ending, res.Problem), res)
+			c.Violation(key, fmt.Sprintf("ops %v ending %s again %v %s: %s", res.H.Ops, res.H.Ending, res.H.Again, res.H.AgainEnding, res.Problem), res)
 			continue
 		}
 		c.Held(1)
